@@ -35,6 +35,10 @@ func main() {
 		gram(os.Args[2:])
 	case "total":
 		total(os.Args[2:])
+	case "conc":
+		conc(os.Args[2:])
+	case "stress":
+		stress(os.Args[2:])
 	default:
 		usage()
 	}
